@@ -154,6 +154,10 @@ def filterKeeps (c : FilterCond) (sender : Peer) (e : Entry) : Bool :=
 
 def stageOne (op : StageOp) (q : Peer) (x : Resp) (e? : Option Entry) : Option Entry × (List Ev × Bool) :=
   match op with
+  | .dropForeignLive =>
+    match e? with
+    | some e => (some e, ([], filterKeeps ReqPipeline.dropCond q e))
+    | none => (none, ([], true))          -- not (or no longer) in progress: passes
   | .filterForPeer =>
     match e? with
     | some e => (some e, ([], filterKeeps ReqPipeline.filterCond q e))
